@@ -79,3 +79,28 @@ Theorem cross_device_move_touches_nothing_else : forall s src dst tD tS pre suf 
   lookup (run s pre) q = lookup s q.
 Proof. exact move_frame. Qed.
 Print Assumptions cross_device_move_touches_nothing_else.
+
+(** ---- operating-system faults (short write, then EFBIG/ENOSPC): [prog_fault target o j] is the run in
+    which write(2) stored only the first j bytes and the operation then raised.  At every crash point of
+    such a run, for every j, the target still holds its old content — never a prefix of the new one. *)
+Theorem fault_while_writing_leaves_the_target_untouched : forall s target o j pre suf,
+  otmp o <> target -> prog_fault target o j = pre ++ suf ->
+  read (run s pre) target = read s target.
+Proof. exact fault_untouched. Qed.
+Print Assumptions fault_while_writing_leaves_the_target_untouched.
+
+(** the rename is the program's last step and it is only reached in a state whose temporary holds the
+    complete new content (so a run that could not write everything never renames) *)
+Theorem rename_is_reached_only_after_the_full_write : forall s target o,
+  let head := creat (okind o) (otmp o) :: write_steps (otmp o) (odata o) in
+  prog target o = head ++ [SRename (otmp o) target]
+  /\ (run_ok s head = true -> lookup (run s head) (otmp o) = Some (File (odata o))).
+Proof. exact rename_after_full_write. Qed.
+Print Assumptions rename_is_reached_only_after_the_full_write.
+
+(** the same fault during the copy of a cross-device move: source and destination both untouched *)
+Theorem fault_during_cross_device_copy_keeps_source_and_destination : forall s src dst tD j pre suf,
+  tD <> src -> tD <> dst -> move_fault s src dst tD j = pre ++ suf ->
+  read (run s pre) dst = read s dst /\ read (run s pre) src = read s src.
+Proof. exact move_fault_untouched. Qed.
+Print Assumptions fault_during_cross_device_copy_keeps_source_and_destination.
